@@ -139,7 +139,8 @@ func (m *MergeExp) filter(t Type, lookup *TypeLookup) (Exp, error) {
 					FormatExp(m, "")),
 			}
 		}
-		innerType = t.Elem
+		// One dimension less, not the element type of the innermost one.
+		innerType = lookup.GetArray(t, -1)
 	case *TypedMapType:
 		if m.MergeOver.CallMode() == ModeArrayCall {
 			return m, &IncompatibleTypeError{
